@@ -681,6 +681,8 @@ impl EGraph {
     ) -> Result<IterationReport> {
         let ts = self.next_ts();
 
+        #[cfg(egglog_verif)]
+        rule::verif_dump::dump_funcs(self);
         let uf_size_before = self.db.get_table(self.uf_table).len();
         let rule_set_report = run_rules_impl(
             &mut self.db,
@@ -1646,14 +1648,29 @@ fn run_rules_impl(
         }
     }
     let mut rsb = db.new_rule_set();
+    #[cfg(egglog_verif)]
+    let mut verif_recs: Vec<String> = Vec::new();
     for rule in rules {
         let info = &mut rule_info[*rule];
         let cached_plan = info.cached_plan.as_ref().unwrap();
+        #[cfg(egglog_verif)]
+        let verif_from = rsb.verif_n_variants();
         info.query
             .add_rules_from_cached(&mut rsb, info.last_run_at, cached_plan);
+        #[cfg(egglog_verif)]
+        verif_recs.push(info.query.verif_rule_json(
+            *rule,
+            &info.desc,
+            info.last_run_at,
+            next_ts,
+            cached_plan,
+            (verif_from, rsb.verif_n_variants()),
+        ));
         info.last_run_at = next_ts;
     }
     let ruleset = rsb.build();
+    #[cfg(egglog_verif)]
+    rule::verif_dump::dump_run(&verif_recs, &ruleset, next_ts);
     Ok(db.run_rule_set(&ruleset, report_level, context))
 }
 
